@@ -342,8 +342,8 @@ func init() {
 	})
 	// ------------------------------------------------------------------ C15
 	register(&Prop{
-		ID: "C15", Level: "proof", Technique: "dominance and control-dependence rules over go/ssa: guard-dominates-read (G-INIT), structure of the guard itself (G-GUARD), length check (G-LEN), no guard on pure receivers (G-PURE)",
-		Explanation: "For every exported operation and every Point-typed input position (parameters, receivers whose incoming value is read, and the elements of points slices): every read of the position is dominated by a checkInitialized call covering it (or happens inside a callee that guards first); checkInitialized itself visits every element and panics exactly on x == zero ∧ y == zero; both multi-scalar routines compare the two lengths and panic before touching either slice; no guard is applied to a pure receiver.",
+		ID: "C15", Level: "proof", Technique: "conditional constant propagation over go/ssa on the two atoms \"x is the zero Element\", \"y is the zero Element\" of one inspected Point, through calls: reachability under the zero pattern (G-INIT), exactness of every atom-dependent panic and guard loop (G-GUARD), length check by dominance (G-LEN), no guard on pure receivers (G-PURE)",
+		Explanation: "For every exported operation and every Point-typed input position (parameters, receivers whose incoming value is read, and the elements of points slices): assuming x and y of that Point both compare equal to the zero Element (the never-set pattern), no read of the position (other than the guard's own look at x and y) and no normal return is reachable — decided by a conditional constant propagation over the two atoms, with calls summarised by running the callee on the corresponding subject, so the guard is recognised by what it does wherever and however it is written; every panic (or call that cannot return) whose reachability depends on the atoms is reachable exactly when both are zero; every loop over a points slice that decides on an element's atoms panics iff both are zero, otherwise goes on to the next element, visits indices 0,1,2,… and has no other exit; both multi-scalar routines compare the two lengths and panic before touching an element of either slice; no guard is applied to a pure receiver.",
 		TrustedBase: trustedCommon,
 		Floors:      []report.Floor{{Rule: "G-INIT", Min: 19}, {Rule: "G-PURE", Min: 12}, {Rule: "G-GUARD", Min: 1}, {Rule: "G-LEN", Min: 2}},
 		Build: func(c *Ctx) {
